@@ -1625,6 +1625,7 @@ func (s *Store) StoreObject(collection CollectionIndex, id string, data interfac
 	indexBytes := make([]byte, 2)
 	binary.BigEndian.PutUint16(indexBytes, uint16(collection))
 	key := append(indexBytes, []byte("::"+id)...)
+	verifhook.Point(s.database, "StoreObject.beforeStore")
 	err = s.storeValue(key, b)
 	if err != nil {
 		s.logger.Error(err)
